@@ -156,3 +156,10 @@ impl Cloner {
 pub fn cloner_alloc(c: &mut Cloner, data: Reference) -> (r: Result<Reference, VmError>)
     ensures r is Ok ==> r->Ok_0 == data, cloner_thread(*final(c)) == cloner_thread(*old(c))
 { unimplemented!() }
+
+// Value's PartialEq (value.rs; e.g. ValueArray::eq zips the elements and does not compare lengths): NOT under contract, so
+// no specification is given: code that branches on `==` between values gets no knowledge from it
+impl PartialEq for Value {
+    #[verifier::external_body]
+    fn eq(&self, other: &Value) -> bool { unimplemented!() }
+}
